@@ -62,6 +62,8 @@ Record row := {
   r_uses : list index_use;
   r_guard : option guard;
   r_effect : option effect_call;
+  r_helper_effect : option string; (* first effectful call reached through free helper functions
+                                      called from the arm, with the call chain; None = none found *)
   r_std_paths : list string;     (* every `std::..` path named in the arm *)
   r_block_arm : bool;            (* the arm is a `{ .. }` block *)
   r_shared_arm : bool            (* the arm pattern lists several variants *)
@@ -86,7 +88,8 @@ Record loop_facts := {
   loop_stack_check_gt : bool;                (* `if env.stack.0.len() > limit { .. return Err(ReachedStackLimit` *)
   loop_stack_check_before_eval_expr : bool;
   loop_single_eval_expr_call : bool;
-  ticks_only_incremented : bool;             (* no assignment to `ticks` other than `+= 1` anywhere in src/ *)
+  ticks_only_incremented : bool;             (* the only writes to `ticks` in src/ are `+= 1`, and `= 0` inside fn eval_tests
+                                                (a fresh budget per test: finitely many tests per run) *)
   limits_assigned_only_in_entry_points : bool
 }.
 
@@ -135,7 +138,9 @@ Definition audited : list (kind * string * audit) := [
   (KFunction, "FsWriteFile", Effectful);
   (KFunction, "RandomRandomInt", NoOsEffect);
   (KFunction, "ReflectBuiltInFiles", NoOsEffect);
-  (KFunction, "ReflectCheckSnippet", NoOsEffect);      (* parses and checks a string in a copy of the initial env *)
+  (KFunction, "ReflectCheckSnippet", Effectful);       (* checking the snippet loads its imports from disk
+                                                           (check_snippet > .. > read_src > std::fs::read):
+                                                           reads / probes files at caller-chosen paths *)
   (KFunction, "ReflectDocComment", NoOsEffect);
   (KFunction, "ReflectDocCommentForMethod", NoOsEffect);
   (KFunction, "ReflectDocCommentForType", NoOsEffect);
@@ -231,13 +236,14 @@ Definition guarded_before_effect (r : row) : bool :=
 Definition sandbox_guarded (r : row) : bool :=
   if effectful r then guarded_before_effect r else true.
 
-(* A NoOsEffect arm contains no effect-pattern match (except the audited benign ones)
-   and names no `std::` path outside the harmless list. *)
+(* A NoOsEffect arm contains no effect-pattern match (except the audited benign ones),
+   reaches none through helper functions, and names no `std::` path outside the harmless list. *)
 Definition no_unaudited_effect (r : row) : bool :=
   match r_effect r with
   | None => true
   | Some e => mem_pair (r_variant r) (e_callee e) benign_effect_calls
   end &&
+  match r_helper_effect r with None => true | Some _ => false end &&
   forallb (fun p => mem_string p harmless_std_paths || mem_pair (r_variant r) p benign_effect_calls)
           (r_std_paths r).
 
